@@ -653,6 +653,9 @@ func (x *Explorer) mapEvent(st *State, at ssa.Instruction, m ssa.Value, op strin
 		default:
 			x.emit(st, &Event{Kind: EvEffect, Eff: ETblR, Instr: at})
 		}
+	case n == a.ObjectStore && f == a.StoreMap && op == "delete":
+		// a whole per-type map dropped from a store (purge)
+		x.emit(st, &Event{Kind: EvEffect, Eff: x.store3(mt, EDelCache, EDelPend, EDelUnk), Instr: at, Tags: mt})
 	case isSto:
 		switch op {
 		case "update":
